@@ -184,6 +184,13 @@ class FunctionLogger:
                 must be a finite, positive real-valued scalar (returned SD:{}"""
             raise ValueError(error_message.format(str(fsd)))
 
+        # The validated value (and SD) are plain floats from here on: NumPy
+        # integer scalars would wrap around, and single precision would lose
+        # digits, in the arithmetic done on them later
+        fval_orig = float(np.real(fval_orig))
+        if self.he_noise_flag:
+            fsd = float(np.real(fsd))
+
         # record timer stats
         funtime = timer.get_duration("funtime")
 
